@@ -3276,6 +3276,12 @@ impl LineBuf {
 				self.apply_motion(motion);
 			}
 			Verb::ReplaceCharInplace(ch,count) => {
+				// Like Vim: if the line does not have that many characters left, nothing is replaced
+				let pos = self.cursor.get();
+				let enough = (pos..pos + count as usize).all(|idx| self.grapheme_at(idx).is_some_and(|gr| gr != "\n"));
+				if !enough {
+					return Ok(())
+				}
 				for i in 0..count {
 					let mut buf = [0u8;4];
 					let new = ch.encode_utf8(&mut buf);
